@@ -72,6 +72,16 @@ def run(ctx):
     ctx.correspond([f"ecc.load {b}" for b in bad], "ecc.load-bad")
     ctx.correspond([f"ecc.dec {gb.gen_scalar(rng)} {hx(bytes([4]) + bytes.fromhex(b) + g.rbytes(rng, 16))}" for b in bad[:30]], "ecc.dec-bad")
     ctx.correspond([f"ecc.dec 5 {hx(g.rbytes(rng, ln))}" for ln in (0, 1, 2, 64, 65, 80, 81)], "ecc.dec-short")
+    # a well-formed block whose point-format byte is not 04, or with bytes behind the ciphertext
+    good = [r[3:] for r in r[1::2] if r.startswith("ok ")][:12]
+    fmt = []
+    for (sel, d, eph, k), blk in zip(cases, good):
+        raw = bytes.fromhex(blk)
+        for fb in (0x00, 0x02, 0x03, 0x05, 0x06, 0xFF):
+            fmt.append(f"ecc.dec {d} {hx(bytes([fb]) + raw[1:])}")
+        fmt.append(f"ecc.dec {d} {hx(raw + b'\x00')}")
+        fmt.append(f"ecc.dec {d} {hx(raw[:-1])}")
+    ctx.correspond(fmt, "ecc.dec-format-byte")
     # default recipient through the header packer (model vs code)
     ctx.correspond([f"bec2.pack {hx(g.gen_key(rng))} e{sel} - {gb.gen_scalar(rng)}" for sel in (0, 1, 2, 3, 4, 7, 255, 256)], "default-recipient")
     # the property on the real code, OpenSSL as the independent implementation
